@@ -138,7 +138,7 @@ func roundTripMaps(c *core.Ctx, val interface{}, desc, shape string, choices []i
 	for _, alt := range []struct {
 		name string
 		res  DecRes
-	}{{"ToObject", DecodePublic(enc.Bytes, tm)}, {"a reader returning one byte per Read", DecodeTrickle(enc.Bytes, tm)}} {
+	}{{"ToObject", DecodePublic(enc.Bytes, tm)}, {"a reader returning one byte per Read", DecodeTrickle(enc.Bytes, tm)}, {"a reader returning io.EOF together with the last bytes", DecodeEOFWithData(enc.Bytes, tm)}} {
 		if !alt.res.OK() {
 			return rep("decode", "other-reader", "decoding through "+alt.name+" fails where the plain reader succeeds: "+alt.res.Panic+fmt.Sprint(alt.res.Err), hexs(enc.Bytes))
 		}
@@ -149,6 +149,14 @@ func roundTripMaps(c *core.Ctx, val interface{}, desc, shape string, choices []i
 		if d := zoo.Bisim(a, g, zoo.BisimOpts{NilEmpty: true, IgnoreTypes: true}); d != "" {
 			return rep("compare", "other-reader", "value decoded through "+alt.name+" differs at "+diffShape(d), d+" | bytes "+hexs(enc.Bytes))
 		}
+	}
+	// decoding straight from a *bytes.Buffer must not hand out memory of the buffer
+	if fb, aliased := DecodeFromBuffer(enc.Bytes, tm, func(x interface{}) string {
+		s := ""
+		core.Catch(func() { s = zoo.NewDenoter(nm).Denote(x).String() })
+		return s
+	}); fb.OK() && aliased {
+		return rep("decode", "aliases-input", "a value decoded from a *bytes.Buffer changes when the buffer's storage is overwritten afterwards", hexs(enc.Bytes))
 	}
 	return "ok"
 }
@@ -305,7 +313,7 @@ func classCountCases(fn func(desc string, v interface{})) {
 func init() {
 	core.Register(&core.Prop{
 		ID: "C01", Level: "model_checking",
-		Rule: "Exhaustive enumeration (prefix-replay DFS of the choice explorer) of every value of each zoo type with at most k positions deviating from their default, every container length 0..600 for 15 container positions, and every class count 1..20; each case is one real ToBytes/ToObject round trip compared with the R2 denotation. A case is non-trivial when at least one position deviates; distinctness is by hash of the case description (lengths/class cases are distinct by construction).",
+		Rule: "Exhaustive enumeration (prefix-replay DFS of the choice explorer) of every value of each zoo type with at most k positions deviating from their default, every container length 0..600 for 15 container positions, every class count 1..20, and a family of large messages around structural thresholds (list/map sizes 2^8, 2^10, 2^12, 2^13, 2^16 (+-1 in thorough), 12000+ non-empty maps, reference ordinals beyond 2^18, nine-octet values at every byte offset around 4096/8192/16384/65536, every scalar kind at every offset around the 4096 and 8192 buffer boundaries); each case is one real ToBytes/ToObject round trip compared with the R2 denotation. A case is non-trivial when at least one position deviates; distinctness is by hash of the case description (lengths/class cases are distinct by construction).",
 		Assumptions: []string{
 			"a top-level struct and a pointer to it are identified (the decoder returns *T)",
 			"elements of untyped containers are compared in their canonical wire types",
@@ -363,6 +371,18 @@ func init() {
 					c.Cover("lengths:" + lc.name)
 				}})
 			}
+			us = append(us, core.Unit{Name: "large", Cost: 120, Run: func(c *core.Ctx) {
+				for _, lc := range largeCases(tier) {
+					if !c.Begin() {
+						continue
+					}
+					c.NontrivialN(1)
+					c.Res.States++
+					c.Res.Transitions++
+					c.Outcome(roundTrip(c, lc.mk(), lc.desc, "large", nil))
+				}
+				c.Cover("large")
+			}})
 			us = append(us, core.Unit{Name: "classes", Cost: 5, Run: func(c *core.Ctx) {
 				classCountCases(func(desc string, v interface{}) {
 					if !c.Begin() {
@@ -399,7 +419,7 @@ func init() {
 			for _, t := range zoo.Types {
 				l = append(l, "type:"+t.Name)
 			}
-			return append(l, "classes", "lengths:top[]int32", "lengths:fieldmap[string]int32")
+			return append(l, "classes", "large", "lengths:top[]int32", "lengths:fieldmap[string]int32")
 		},
 	})
 }
